@@ -5,15 +5,15 @@ import json, subprocess
 HOOK_COMMITS = ["a107075", "8ec4bb8", "503c526", "d6a852f", "5a364b9"]
 
 CLAIMED = {
-    "C01": ("exploration", "SEQ world: seeded histories over the whole trait on the real Memfs, every step judged against the RefFs reference model (acceptable-outcome sets, documented error kinds, full state equality incl. failure-atomicity of single-target calls)",
+    "C01": ("exploration", "SEQ world: seeded histories over the whole trait on the real Memfs, every step judged against the RefFs reference model (acceptable-outcome sets, documented error kinds, full state equality incl. failure-atomicity of single-target calls); a fixed share of runs are scale runs (hundreds of entries, 58 levels, files of several hundred kilobytes); builders kept across steps",
             "seeded simulation, reference-model refinement per step", "4 C01"),
     "C02": ("exploration", "DIFF world: the same generated (state, call) pairs and short histories on real Stdfs over a tmpfs sandbox and on Memfs; success/failure, returned values and the tree seen by an independent std::fs observer must agree",
             "seeded differential simulation against an independent disk observer", "4 C02"),
     "C03": ("exploration", "integrity invariant on the complete internal state (hook H2, cross-checked against Display) after every step of seeded histories incl. failing and hostile calls; every 8th run is a scheduled concurrent program (CONC leg) checked at every quiescent point and at the end",
             "seeded simulation, invariant on full snapshot after every step", "4 C03"),
-    "C04": ("exploration", "CONC world: 2-3 real client threads on one shared Memfs, every scheduling decision at guard acquisition / operation boundaries taken by a seeded controlled scheduler (writer-preferring lock model); deadlock, panic, poison, C03 at quiescence, linearizability against sequential executions of the real code, append conservation",
+    "C04": ("exploration", "CONC world: 2-3 real client threads on one shared Memfs, every scheduling decision at guard acquisition / operation boundaries taken by a seeded controlled scheduler (writer-preferring lock model); deadlock, panic, poison, C03 at quiescence, linearizability (values and error kinds) against sequential executions of the real code, append conservation; program families: general, append storm, append handles, cwd race, query vs. replacement, scale",
             "controlled-scheduler schedule search + linearizability check", "4 C04"),
-    "C05": ("exploration", "abs() against an independent reference resolver under varied cwd/HOME, and every other method executed with respelled arguments next to a twin instance that receives the canonical spelling (outcomes and states must coincide), on Memfs and - in two sibling tmpfs sandboxes - on Stdfs",
+    "C05": ("exploration", "abs() against an independent reference resolver under varied cwd/HOME, and every other method executed with respelled arguments next to a twin instance that receives the canonical spelling (outcomes and states must coincide), on Memfs and - in two sibling tmpfs sandboxes - on Stdfs; every string up to length 5 over the statement's alphabet x cwd x HOME walked in slices",
             "seeded simulation, metamorphic twin execution", "4 C05"),
     "C06": ("exploration", "content profile (write/append/line helpers/handles/copy/move) with all data kinds and handle faults F1-F4 against a byte-vector model; DIFF leg: the same operations incl. write/append handles (flushed after every write) on Stdfs and Memfs with an independent std::fs reader",
             "seeded simulation with handle-lifecycle fault injection, byte-vector model", "4 C06"),
@@ -23,13 +23,13 @@ CLAIMED = {
             "seeded simulation with enumeration-order / descriptor-cap injection", "4 C08"),
     "C09": ("exploration", "copy / copy_b (all Copier options) / move_p on generated trees and path pairs (nested, conflicting, links), pre/post state judged by the model; failed move leaves the state identical; DIFF leg on Stdfs; SOLO leg: Stdfs alone on trees with indirect links (source untouched by a successful copy, failed move changes nothing)",
             "seeded simulation, pre/post snapshot oracle", "4 C09"),
-    "C10": ("exploration", "link laws after every symlink and on every query in link-bearing histories (readlink/readlink_abs, link exclusion, kind at creation, remove/chmod/chown act on the link, follow swaps once); DIFF leg on Stdfs incl. dangling targets",
+    "C10": ("exploration", "link laws after every symlink and on every query in link-bearing histories (readlink/readlink_abs, link exclusion, kind at creation, remove/chmod/chown act on the link, follow swaps once); DIFF leg on Stdfs incl. dangling targets; SOLO leg: link queries on Stdfs alone on trees with indirect links, judged by what the OS says about the same path",
             "seeded simulation, reference model of link semantics", "4 C10"),
-    "C11": ("exploration", "chmod / chmod_b (all options, generated well-formed and malformed expressions) and chown / chown_b against an independent evaluator of the documented grammar and a which-entries-changed oracle; DIFF leg on Stdfs",
+    "C11": ("exploration", "chmod / chmod_b (all options, generated well-formed and malformed expressions) and chown / chown_b against an independent evaluator of the documented grammar and a which-entries-changed oracle; builders kept across steps and executed repeatedly; the 512 modes x 945 single clauses walked in slices; DIFF leg on Stdfs",
             "seeded simulation, independent grammar evaluator", "4 C11"),
-    "C12": ("exploration", "hostile-client profile on Memfs: adversarial arguments in the middle of ordinary histories; outcome must be Ok/Err (no panic, watchdog for hangs) and a liveness probe plus poison flag after every failing call. The Memfs clause is what is decided; the public path / string helpers are additionally called directly with the same hostile text (no-panic only), which is input generation rather than simulation and is labelled as auxiliary",
+    "C12": ("exploration", "hostile-client profile on Memfs: adversarial arguments in the middle of ordinary histories; outcome must be Ok/Err (no panic, watchdog for hangs) and a liveness probe plus poison flag after every failing call; every string up to length 3 over a 12-character adversarial alphabet fed to every path-taking method in slices. The Memfs clause is what is decided; the public path / string helpers are additionally called directly with the same hostile text (no-panic only), which is input generation rather than simulation and is labelled as auxiliary",
             "seeded simulation with hostile-argument injection, watchdog", "4 C12"),
-    "C13": ("exploration", "every generated history executed in lock step directly and through Vfs / VfsEntry; transcripts (values, error kinds) and states must be identical; every VfsEntry is read through the enum and through the wrapped value across follow(true)/follow(false)/follow(true); the Vfs::Stdfs arms run against Stdfs in two sibling sandboxes",
+    "C13": ("exploration", "every generated history executed in lock step directly and through Vfs / VfsEntry; transcripts (values, error kinds) and states must be identical; every VfsEntry is read through the enum and through the wrapped value across follow(true)/follow(false)/follow(true); the Vfs::Stdfs arms run against Stdfs in two sibling sandboxes (incl. handles and dangling links)",
             "seeded simulation, lock-step transcript comparison", "4 C13"),
     "C17": ("exploration", "per-run environment table (unset/empty/plain/with separators) installed in the worker process; templates through sys::expand and abs() judged by a reference expander",
             "configuration swarm under the environment seam", "4 C17"),
